@@ -25,11 +25,15 @@ From Coq Require Import List ZArith.
 From LV Require Import Base.Sexp Store.Paths Store.Keyed Store.Sim.
 Import ListNotations.
 
-Definition ShLeaf := SStruct [SInt; SInt].
+(** a field with #[store(skip)] (type `()`, value `()`) keeps its declaration index: both
+    derive(Store) and derive(Patch) number the fields of a struct by declaration index.
+    Leaf(i64, #[store(skip)] (), i64); Sub { #[store(skip)] z: (), x, l, v, b, t, e } *)
+Definition ShUnit := SStruct [].
+Definition ShLeaf := SStruct [SInt; ShUnit; SInt].
 Definition ShTag := SStruct [SInt; SInt].
 Definition ShItem := SStruct [SInt; SInt; ShLeaf; SKeyed ShTag].
 Definition ShChoice := SEnum [[]; [SInt; ShLeaf]; [SInt; SInt]].
-Definition ShSub := SStruct [SInt; ShLeaf; SVec SInt; SBox ShLeaf; SStruct [SInt; SInt]; ShChoice].
+Definition ShSub := SStruct [ShUnit; SInt; ShLeaf; SVec SInt; SBox ShLeaf; SStruct [SInt; SInt]; ShChoice].
 Definition ShMid := SStruct [SInt; ShLeaf; SOpt ShLeaf; SKeyed ShItem].
 Definition ShRoot := SStruct [SInt; ShMid; SOpt ShSub; SVec ShSub; SKeyed ShItem; ShChoice].
 
